@@ -26,6 +26,7 @@ from mc.runner import Out
 
 ID = "C17"
 RULE = (
+    "[decreasing] one block: adjust_dim_width on axes that count down (lengths 1, 4, 5; steps -1, -0.5; step attribute or estimated; every width 1..len+3 x {start, center, end}): size, lattice, data on coordinates, fill elsewhere, placement. "
     "BFS to depth d (2 quick; thorough: 3 from 1-D axes of length <= 3, 2 otherwise) from every initial axis (first x step x length x step-attribute/estimated x array layout, "
     "plus the frequency axis of a real compute_spectrogram result with a fractional-sample window, attributes as the library wrote them; plus integer-typed data "
     "with a fractional fill value; plus an 8200-sample axis with a fixed depth-1 menu of crops / extensions / width changes at its ends and in its middle); "
